@@ -124,6 +124,7 @@ class Program:
         self.classes: Dict[str, Class] = {}
         self.file_digests: Dict[str, str] = {}
         self._load(overlay or {})
+        self._canonicalise_tests()
         self._index()
         self._canonicalise_calls()
 
@@ -278,6 +279,51 @@ class Program:
                     i += 1
                 node.args = new_args
                 node.keywords = [k for k in node.keywords if k.arg in kw]
+
+    def _canonicalise_tests(self):
+        """Comparison spelling is normalised in the parsed trees: `not (a op b)` becomes the negated
+        operator, `a > b` / `a >= b` become `b < a` / `b <= a`, the operands of == / != are put in a
+        fixed (textual) order, and `if not c: A else: B` becomes `if c: B else: A`.  Chained
+        comparisons are left alone."""
+        NEG = {ast.Eq: ast.NotEq, ast.NotEq: ast.Eq, ast.Lt: ast.GtE, ast.GtE: ast.Lt, ast.Gt: ast.LtE, ast.LtE: ast.Gt,
+               ast.In: ast.NotIn, ast.NotIn: ast.In, ast.Is: ast.IsNot, ast.IsNot: ast.Is}
+
+        class T(ast.NodeTransformer):
+            def visit_UnaryOp(self, node):
+                self.generic_visit(node)
+                if isinstance(node.op, ast.Not) and isinstance(node.operand, ast.Compare) and len(node.operand.ops) == 1 and type(node.operand.ops[0]) in NEG:
+                    c = node.operand
+                    new = ast.Compare(left=c.left, ops=[NEG[type(c.ops[0])]()], comparators=c.comparators)
+                    return self.visit_Compare(ast.copy_location(new, node), descend=False)
+                if isinstance(node.op, ast.Not) and isinstance(node.operand, ast.UnaryOp) and isinstance(node.operand.op, ast.Not):
+                    pass  # `not not x` is bool(x), not x: keep
+                return node
+
+            def visit_Compare(self, node, descend=True):
+                if descend:
+                    self.generic_visit(node)
+                if len(node.ops) != 1:
+                    return node
+                op = type(node.ops[0])
+                l, r = node.left, node.comparators[0]
+                if op in (ast.Gt, ast.GtE):
+                    return ast.copy_location(ast.Compare(left=r, ops=[ast.Lt() if op is ast.Gt else ast.LtE()], comparators=[l]), node)
+                if op in (ast.Eq, ast.NotEq) and ast.unparse(r) < ast.unparse(l) and not isinstance(r, ast.Constant):
+                    return ast.copy_location(ast.Compare(left=r, ops=[op()], comparators=[l]), node)
+                if op in (ast.Eq, ast.NotEq) and isinstance(l, ast.Constant) and not isinstance(r, ast.Constant):
+                    return ast.copy_location(ast.Compare(left=r, ops=[op()], comparators=[l]), node)
+                return node
+
+            def visit_If(self, node):
+                self.generic_visit(node)
+                if isinstance(node.test, ast.UnaryOp) and isinstance(node.test.op, ast.Not) and node.orelse and \
+                        not (len(node.orelse) == 1 and isinstance(node.orelse[0], ast.If)):
+                    node.test, node.body, node.orelse = node.test.operand, node.orelse, node.body
+                return node
+
+        for m in self.modules.values():
+            m.tree = T().visit(m.tree)
+            ast.fix_missing_locations(m.tree)
 
     # ------------------------------------------------------------------ resolution
     def resolve_qualified(self, qn: str, _seen=None) -> str:
